@@ -112,7 +112,7 @@ def numeric_shard(asm, acc, sh, deadline):
 ASCII_POOL = 'abcXYZ 0129_-+*/=<>!?.,;:()[]{}#"\'%&|^~@$`'
 NONASCII = ['é', 'ü', 'ß', 'ñ', 'Ω', 'Ж', '中', '日本', '€', '→', '😀', '𝄞', 'ÿ', '¡', 'ǅ', 'ก',
             # characters that str.splitlines() treats as line ends but that are not: a line ends at LF, CR LF or CR
-            'a\x0cb', 'a\x0bb', 'a\x1cb', 'a\x1eb', 'a\x85b', 'a\u2028b', 'a\u2029b']
+            'a\ufeffb', '\ufeff', 'x\u200b\u00a0y', 'a\x0cb', 'a\x0bb', 'a\x1cb', 'a\x1eb', 'a\x85b', 'a\u2028b', 'a\u2029b']
 ESCAPES = ['\\n', '\\t', '\\r', '\\\\', "\\'", '\\"', '\\0', '\\x41', '\\x7f', '\\xe9', '\\u00e9', '\\u4e2d',
            '\\q', '\\%', '\\é', '\\€', '\\日', '\\😀', 'C:\\Windows\\€uro', '\\ ']
 
